@@ -5,25 +5,28 @@ import argparse, glob, json, os, subprocess, sys, time
 HERE = os.path.dirname(os.path.dirname(os.path.abspath(__file__)))
 ap = argparse.ArgumentParser(); ap.add_argument("--budget", type=float, default=20); ap.add_argument("--only", default="")
 ap.add_argument("--own-only", action="store_true")
+ap.add_argument("--worktree", default="/repo", help="scratch worktree of /repo at HEAD to apply the changes in (VERIF_REPO); /repo itself stays untouched")
 a = ap.parse_args()
+REPO = os.path.realpath(a.worktree)
+ENV = dict(os.environ, VERIF_REPO=REPO)
 only = set(x for x in a.only.split(",") if x)
 out = {}
 mp = os.path.join(HERE, "seeded", "MATRIX.json")
 if only and os.path.exists(mp):
     out = json.load(open(mp))
-st = subprocess.run(["git", "-C", "/repo", "status", "--porcelain"], capture_output=True, text=True).stdout.strip()
+st = subprocess.run(["git", "-C", REPO, "status", "--porcelain"], capture_output=True, text=True).stdout.strip()
 if st:
-    sys.exit("refusing: /repo not clean")
+    sys.exit("refusing: %s not clean" % REPO)
 for d in sorted(glob.glob(os.path.join(HERE, "seeded", "S*"))):
     sid = os.path.basename(d)
     if only and sid not in only:
         continue
     meta = json.load(open(os.path.join(d, "meta.json")))
     props = [meta["breaks_property"]] + ([] if a.own_only else [p for p in meta.get("caught_by", []) if p != meta["breaks_property"]])
-    r = subprocess.run(["git", "-C", "/repo", "apply", os.path.join(d, "patch.diff")], capture_output=True, text=True)
+    r = subprocess.run(["git", "-C", REPO, "apply", os.path.join(d, "patch.diff")], capture_output=True, text=True)
     if r.returncode != 0 and os.path.exists(os.path.join(d, "patch.rebased.diff")):
         # the original patch was written against an older HEAD (a later fix touched the same lines)
-        r = subprocess.run(["git", "-C", "/repo", "apply", os.path.join(d, "patch.rebased.diff")], capture_output=True, text=True)
+        r = subprocess.run(["git", "-C", REPO, "apply", os.path.join(d, "patch.rebased.diff")], capture_output=True, text=True)
     if r.returncode != 0:
         out[sid] = {"error": "patch does not apply to HEAD: " + r.stderr.strip()[:200]}
         print(sid, "PATCH-DOES-NOT-APPLY", flush=True)
@@ -33,11 +36,11 @@ for d in sorted(glob.glob(os.path.join(HERE, "seeded", "S*"))):
         for p in props:
             t = time.time()
             o = subprocess.run([os.path.join(HERE, "check"), p, "--tier", "quick", "--budget", str(a.budget), "--no-selftest", "--no-evidence"],
-                               capture_output=True, text=True, timeout=3600)
+                               capture_output=True, text=True, timeout=3600, env=ENV)
             sigs = [l.split(": ", 1)[1] for l in o.stdout.splitlines() if l.startswith("violation:")]
             res[p] = {"verdict": {0: "missed", 1: "caught"}.get(o.returncode, "harness-error"), "signatures": sigs[:6], "wall_s": round(time.time() - t, 1)}
     finally:
-        subprocess.run(["git", "-C", "/repo", "checkout", "--", "."], check=True)
+        subprocess.run(["git", "-C", REPO, "checkout", "--", "."], check=True)
     out[sid] = {"property": meta["breaks_property"], "name": meta["name"], "results": res}
     print(sid, meta["breaks_property"], meta["name"], {p: v["verdict"] for p, v in res.items()}, flush=True)
     json.dump(out, open(os.path.join(HERE, "seeded", "MATRIX.json"), "w"), indent=1)
